@@ -33,6 +33,10 @@ const (
 	// nodes then hold LIBs on conflicting branches with NO misbehaving producer. Tagged ONLY in the scripted history A6 (both
 	// nodes untainted, every block honest); a conflict found by the random schedules or the exploration stays untagged.
 	classHonestSwitch = "C08-conflicting-libs-honest-switch-below-confirmed"
+	// receivers never validate the Confirms field: a producer claiming more than `no - (its previous block among the ancestors)`
+	// confirms blocks it has already confirmed; the LIB then advances with blocks of fewer than 2n/3+1 distinct producers. Tagged
+	// only when such a lie is present on the main chain at or above the LIB.
+	classLyingConfirms = "C08-quorum-by-lying-confirms"
 )
 
 var classSeen = map[string]int{}
@@ -153,8 +157,14 @@ func (n *node) afterArrival(b *sblk, res int) {
 		}
 		size := int(n.cm.Size())
 		if len(seen) < quorum(size) {
+			class := ""
+			for i := lib.No; i < uint64(len(n.main)); i++ {
+				if w.lies(n.main[i]) {
+					class = classLyingConfirms
+				}
+			}
 			n.fail(fmt.Sprintf("LIB advanced to %s with blocks of only %d distinct producers at or above it on the main chain; more than 2/3 of %d producers = %d needed",
-				w.showBI(lib), len(seen), size, quorum(size)), "")
+				w.showBI(lib), len(seen), size, quorum(size)), class)
 		}
 		w.run.Count(fmt.Sprintf("lib-quorum-margin=%d", len(seen)-quorum(size)))
 	}
@@ -252,4 +262,19 @@ func forkNo(a, b *sblk) uint64 {
 		}
 	}
 	return a.no
+}
+
+// lies: the block's Confirms value exceeds what its producer may claim: no - (its previous block among the ancestors).
+func (w *world) lies(b *sblk) bool {
+	if b.prev == nil {
+		return false
+	}
+	var lpb uint64
+	for x := b.prev; x != nil && x.prev != nil; x = x.prev {
+		if x.bp == b.bp {
+			lpb = x.no
+			break
+		}
+	}
+	return b.confirms > b.no-lpb
 }
